@@ -152,9 +152,10 @@ type Env struct {
 	elemOut map[[2]int]Outcome
 	Ems     []*RecEmitter
 
-	gateOnce     sync.Once
-	gateCh       chan struct{}
-	GateTimedOut atomic.Bool
+	gateOnce         sync.Once
+	gateCh           chan struct{}
+	GateTimedOut     atomic.Bool
+	GateInconclusive atomic.Bool
 
 	// Race selects the race-detector flavour (C12): user functions record
 	// nothing and take no lock, so that the harness adds no happens-before
@@ -169,7 +170,11 @@ func NewEnv(id int, spec *Spec, scn *Scenario) *Env {
 	for _, eo := range scn.Elems {
 		e.elemOut[[2]int{eo.Unit, eo.Elem}] = eo.O
 	}
-	for i := 0; i < spec.Emitters; i++ {
+	n := spec.Emitters
+	if spec.EmitShared {
+		n++ // the decoy
+	}
+	for i := 0; i < n; i++ {
 		e.Ems = append(e.Ems, &RecEmitter{env: e, idx: i})
 	}
 	return e
@@ -337,11 +342,25 @@ func (e *Env) begin(unit, elem, idx int, key string, ctx context.Context, ins []
 		time.Sleep(time.Duration(o.D) * time.Microsecond)
 	}
 	if e.Scn.GateU == unit+1 && e.Scn.GateFor > 0 {
-		tm := time.NewTimer(3 * time.Second)
+		// Not a wall-clock verdict: after the timer fires, the violation is
+		// only declared if the whole process is provably stuck (every
+		// scheduler goroutine blocked, nothing runnable, twice 300ms apart).
+		// Otherwise the machine was merely slow: inconclusive.
+		tm := time.NewTimer(5 * time.Second)
 		select {
 		case <-e.gateCh:
 		case <-tm.C:
-			e.GateTimedOut.Store(true)
+			if _, stuck := stableBlocked(map[int64]bool{}); stuck {
+				e.GateTimedOut.Store(true)
+			} else {
+				e.GateInconclusive.Store(true)
+				tm2 := time.NewTimer(60 * time.Second)
+				select {
+				case <-e.gateCh:
+				case <-tm2.C:
+				}
+				tm2.Stop()
+			}
 		}
 		tm.Stop()
 	}
